@@ -40,6 +40,9 @@ def run(ck):
     ck.run_rule(f5_field_order)
     ck.run_rule(f6_orientation)
     ck.run_rule(f7_f8_counters_and_rejections)
+    # equality of a re-read position with the original also needs the board's derived fields to be functions of the placement
+    from .c10 import b1_b2_frozen_board
+    ck.run_rule(b1_b2_frozen_board)
 
 
 def piece_letters(ck):
@@ -471,6 +474,7 @@ def f6_orientation(ck):
     # map[square] = piece with square = Square::from((file(sq0), opposing_rank(rank(sq0)))), sq0 = Square::try_from(location_index)
     idx = [t for bb, t in live_calls(bp) if callee_name(t).endswith("IndexMut<I>>::index_mut")]
     good = len(idx) == 1
+    cursor_local = None      # the scan cursor: the (multiply assigned) local whose value Square::try_from turns into the square
     if good:
         sq_t = btb.operand(idx[0]["args"][1])
         good = is_call(sq_t, "Rank)>>::from")
@@ -478,7 +482,9 @@ def f6_orientation(ck):
             tup = sq_t[2][0]
             f, r = tup[2]
             src = [x for x in walk(sq_t) if is_call(x, "TryFrom<u8>>::try_from")]
-            good = bool(src) and src[0][2][0][0] == "var" and (bp.local_name(src[0][2][0][1]) or "").startswith("location")
+            good = bool(src) and src[0][2][0][0] == "var"
+            if good:
+                cursor_local = src[0][2][0][1]
             good = good and is_call(r, "Rank::opposing_rank") and f[0] == "field" and f[2] == "1" and r[2][0][0] == "field" and r[2][0][2] == "0" and is_call(f[1], "Square::rank_file")
     ck.req(good, "F6.reader", "Board::try_parse", bp.where(), "the reader does not place cursor i on (file of i, opposing rank of i)")
     rf = ck.body("weechess_core::board::Square::rank_file", "F6")
@@ -496,7 +502,7 @@ def f6_orientation(ck):
     adds = []
     for blk in bp.blocks:
         for s in blk["stmts"]:
-            if s["k"] == "assign" and not s["place"]["p"] and (bp.local_name(s["place"]["l"]) or "").startswith("location"):
+            if s["k"] == "assign" and not s["place"]["p"] and cursor_local is not None and s["place"]["l"] == cursor_local:
                 adds.append(btb.rvalue(s["rv"]))
     kinds = set()
     for t in adds:
